@@ -103,6 +103,29 @@ def main():
             except Exception as e:
                 rec.update(ok=False, why='exception', got=f'{type(e).__name__}: {e}', expected='no exception')
             res.append(rec)
+        if need[3]:
+            # serial, several branches: each branch's world gets its successor, whatever the other branches did last
+            from pytableaux.lang import Argument
+            for argstr, nb in (('c:Aab', 2), ('d:Aab:Acb', 4), ('c:AaLb:NMb', 2)):
+                rec = dict(logic=Meta.name, worlds=[0], pairs=[], ok=True, why='', branches=nb, argument=argstr)
+                try:
+                    tab = Tableau(logic, Argument(argstr), max_steps=200)
+                    tab.build()
+                    opens = [b for b in tab if not b.closed]
+                    missing = [list(tab).index(b) for b in opens
+                               if not any('flag' in n for n in b)
+                               and not all(any('world1' in n and n['world1'] == w for n in b)
+                                           for w in {n['world'] for n in b if 'sentence' in n})]
+                    rec['steps'] = []
+                    rec['flags'] = [False, False, False]
+                    rec['branch_worlds'] = [0]
+                    if tab.premature or missing:
+                        rec.update(ok=False, why='serial-other-branch',
+                                   got=f'{len(tab)} branches (premature={bool(tab.premature)}), a world carrying a sentence without successor on branches {missing}',
+                                   expected='a successor for every world carrying a sentence on every open branch')
+                except Exception as e:
+                    rec.update(ok=False, why='exception', got=f'{type(e).__name__}: {e}', expected='no exception')
+                res.append(rec)
         return res
 
     mods = sorted(registry.modules)
